@@ -643,6 +643,20 @@ def lookupV4Nss : List NSAddr → Bool → Option Cause → NssResult
     else if c = .attemptLimit ∨ c = .loadShed then lookupV4Nss rest have_ (some c)
     else lookupV4Nss rest have_ soft
 
+/-- `lookupV4Nss` together with the PROVISIONAL delegation it publishes while it
+is still collecting (`delegations.SetUntil` before each host lookup once a
+server is known): the second component says whether such an entry is left in
+the delegation cache when the function returns. A request that gives up in
+the middle (work budget, recursion bound, cancellation, deadline) removes the
+entry it published. -/
+def lookupV4NssProv : List NSAddr → Bool → Option Cause → Bool → NssResult × Bool
+  | [], have_, soft, prov => (lookupV4Nss [] have_ soft, prov)
+  | .found :: rest, have_, soft, prov => lookupV4NssProv rest true soft (prov || have_)
+  | .failed c :: rest, have_, soft, prov =>
+    if c = .workLimit ∨ c = .maxRecursion ∨ c = .canceled ∨ c = .deadline then (.error c, false)
+    else if c = .attemptLimit ∨ c = .loadShed then lookupV4NssProv rest have_ (some c) (prov || have_)
+    else lookupV4NssProv rest have_ soft (prov || have_)
+
 /-- `processDelegation` after `lookupV4Nss` (non-minimized): is the zone
 published as unreachable (`errNoReachableAuth`)? -/
 def delegationRecordsZone (ctx : Ctx) (zoneEmpty : Bool) : NssResult → Bool
